@@ -32,7 +32,7 @@ def rpc_graph(res, meta):
         k = json.dumps(st["key"], sort_keys=True)
         if k not in ids:
             ids[k] = len(states)
-            states.append({"obs": json.dumps(st["obs"], sort_keys=True, separators=(",", ":")), "quiet": st["quiet"]})
+            states.append({"obs": json.dumps(st["obs"], sort_keys=True, separators=(",", ":")), "quiet": st["quiet"], "ok": st.get("ok", True)})
     for e in res.lines.get("EDGE", []):
         f, t = ids.get(json.dumps(e["from"], sort_keys=True)), ids.get(json.dumps(e["to"], sort_keys=True))
         if f is None or t is None:
@@ -58,7 +58,7 @@ def cfg_meta(cfg_path):
     def g(name, conv=int):
         m = re.search(r"\b%s\s*=\s*(\S+)" % name, txt)
         return conv(m.group(1))
-    return {"mode": g("Mode", lambda s: s.strip('"')), "hasTimeout": g("HasTimeout", lambda s: s == "TRUE"),
+    return {"gated": g("Gated", lambda s: s == "TRUE"), "mode": g("Mode", lambda s: s.strip('"')), "hasTimeout": g("HasTimeout", lambda s: s == "TRUE"),
             "batchLimit": g("BatchLimit"), "sizeLimit": g("SizeLimit"), "maxMsgs": g("MaxMsgs"),
             "szRet": g("SzRet"), "szBig": g("SzBig"), "szErr": g("SzErr"), "szInv": g("SzInv")}
 
@@ -78,11 +78,37 @@ def run(ctx):
     ctx.notes.append("as-coded model (AsCoded=TRUE): TLC %s" % ("finds a counterexample to %s (findings C49-F1/F2)" % r.violated if r.violated else "found no counterexample"))
     # R: schedules forced on the real server
     pending = []
-    for cfg in ctx.pick(["MCRPCSchedHttp", "MCRPCSchedConn"], ["MCRPCSchedHttp", "MCRPCSchedHttpLimit", "MCRPCSchedConn", "MCRPCSchedConnThorough"]):
+    for cfg in ctx.pick(["MCRPCSchedHttp", "MCRPCSchedConn", "MCRPCSchedGated"],
+                        ["MCRPCSchedHttp", "MCRPCSchedHttpLimit", "MCRPCSchedConn", "MCRPCSchedConnThorough", "MCRPCSchedGated"]):
         res = ctx.model_check("net/MCRPCSched", "net/" + cfg, tags=("EDGE", "STATE"), timeout=7200, workers=4, name=cfg, deadlock=False)
         gp = os.path.join(ctx.scratch, cfg + ".json")
         write_json(gp, rpc_graph(res, cfg_meta(os.path.join(SPEC, "net", cfg + ".cfg"))))
         drive_filtered(ctx, drv, gp, cfg, pending)
+    # V: concurrent HTTP requests with real timeouts; any interleaving the specification allows is accepted.
+    # The as-coded variant of the specification is the oracle (it differs from the demanded behaviour only
+    # by findings F1/F2); a trace that the demanded behaviour cannot explain but the as-coded variant can is
+    # reported as the pending finding.   TODO-KNOWN-FINDING C49-F2 (pending coordinator decision)
+    for aware in (False, True):
+        tp = os.path.join(ctx.scratch, "stress-%s.ndjson" % aware)
+        args = ["-mode", "stress", "-trace", tp, "-n", ctx.pick(600, 6000), "-workers", ctx.pick(6, 12)] + (["-ctxaware"] if aware else [])
+        s, _ = ctx.drive(drv, args, name="c49-stress-ctxaware" if aware else "c49-stress", timeout=7200)
+        ok, consumed, total, r = ctx.validate("net/RPCTrace", tp, cfg="net/RPCTraceAsCoded", ntraces=s["traces"], timeout=7200,
+                                              silent_steps=True, dfs=True, name="RPCTraceAsCoded")
+        if not ok:
+            ctx.reject_trace("net/RPCTrace", tp, consumed, r, cfg="net/RPCTraceAsCoded",
+                             desc="HTTP request %d: response of the real rpc.Server has no explanation by RPC.tla (not even by the as-coded variant)" % (consumed // 3 + 1))
+            continue
+        ok2, consumed2, total2, r2 = ctx.validate("net/RPCTrace", tp, cfg="net/RPCTrace", ntraces=0, timeout=7200,
+                                                  silent_steps=True, dfs=True, name="RPCTrace(demanded)")
+        if not ok2:
+            lines = [l for l in open(tp).read().splitlines() if l.strip()]
+            req = json.loads(lines[consumed2 - 1]) if 0 < consumed2 <= len(lines) else None
+            out = json.loads(lines[consumed2]) if consumed2 < len(lines) else None
+            line = "PENDING-FINDING property=C49 C49-F2 timeout race: calls of a batch left unanswered / notification answered (request %d of the %s stress run)" % (consumed2 // 3 + 1, "ctx-aware" if aware else "sleeping")
+            pending.append(line)
+            import vcheck
+            json.dump({"property": "C49", "finding": "C49-F2", "request": req, "response": out, "seed": ctx.seed},
+                      open(os.path.join(vcheck.OUTDIR, "replays", "C49-F2-pending.json"), "w"), indent=1)
     for line in pending:
         ctx.notes.append(line)
         print(line)
@@ -118,5 +144,15 @@ def drive_filtered(ctx, drv, gp, cfg, pending):
         else:
             keep.append(v)
     s["violations"] = keep
+    nbad = int((s.get("extra") or {}).get("property_violating_states_reached_on_real_code", 0))
+    if nbad:
+        # TODO-KNOWN-FINDING C49-F1/F2: the as-coded schedule graph (timer function held at the verif hook between
+        # cancel() and the error response) contains states that violate AtMostOnce/ExactlyOnce; the real server
+        # follows the graph into them.  Reported as pending, with the schedules, not as a verdict of this check.
+        line = "PENDING-FINDING property=C49 C49-F2 reproduced deterministically: the real rpc.Server reached %d states of the as-coded schedule graph that violate ExactlyOnce/AtMostOnce (%s)" % (nbad, cfg)
+        pending.append(line)
+        rp = os.path.join(vcheck.OUTDIR, "replays", "C49-F2-gated-pending.json")
+        json.dump({"property": "C49", "finding": "C49-F1/F2", "cfg": cfg, "schedules": s["extra"].get("property_violating_paths")}, open(rp, "w"), indent=1)
+        s["extra"]["property_violating_paths"] = "see " + rp
     ctx.absorb(s, "c49-replay-" + cfg)
     return s, p
